@@ -186,6 +186,8 @@ class Gen:
             f["init"] = True
             # spelled as typing.Self, or as a forward reference by name (string annotation)
             recursive = r.choice(["self", "name"])
+            if kind == "attrs" and r.random() < 0.5:
+                f["idconv"] = True  # reference cycle met on the `attrib.converter is not None` path
         if kind == "attrs":
             for f in fields:
                 # an attrs field converter that is the identity: semantically invisible, but the hook generators
